@@ -910,6 +910,7 @@ func c16RunCase(t *testing.T, k c16Knobs, seed int64) c16Obs {
 	}
 
 	// ---- quiescence ------------------------------------------------------------------
+	notQuiescent := false
 	if !shutDown && obs.Inconclusive == "" {
 		// commands may still be stashed / queued: wait for issue to settle, cancelling as we go
 		deadline := time.Now().Add(40 * time.Second)
@@ -923,6 +924,10 @@ func c16RunCase(t *testing.T, k c16Knobs, seed int64) c16Obs {
 				}
 			}
 			if time.Now().After(deadline) {
+				// not quiescent (commands still queued or stashed, e.g. on an overloaded
+				// machine): judging counters now would charge requests that are only
+				// being admitted; the never-completed predicate below still applies
+				notQuiescent = true
 				break
 			}
 			time.Sleep(500 * time.Microsecond)
@@ -984,12 +989,17 @@ func c16RunCase(t *testing.T, k c16Knobs, seed int64) c16Obs {
 	} else {
 		re = reqGrainPID.reentrancy.Load()
 	}
+	if re != nil && len(never) == 0 && notQuiescent {
+		obs.Inconclusive = "requester not quiescent 40s after the last command: counters not judged"
+		return obs
+	}
 	if re != nil && len(never) == 0 {
 		// "return to zero": requests of an earlier incarnation that survived a restart
 		// complete by their timeout (<= 50 ms) or by the cancellation above; give them
 		// time (watchdog only: a counter that is still non-zero afterwards with the
 		// requester idle and its queues empty is stuck, which is the violation)
 		verifrt.WaitUntil(10*time.Second, func() bool {
+			cancelLeft() // a command that was still queued may have issued requests without a timeout meanwhile
 			return re.inFlightCount.Load() == 0 && re.blockingCount.Load() == 0 && re.requestStates.Len() == 0 && c16MailboxQuiet(reqPID, reqGrainPID)
 		})
 		inflight, blocking, states := re.inFlightCount.Load(), re.blockingCount.Load(), re.requestStates.Len()
